@@ -1,7 +1,7 @@
 (* C17 property theorems. Nothing but statements closed by `exact lemma` and Print Assumptions. *)
 From Coq Require Import NArith List Bool.
 From OG Require Import C17.Model C17.Proofs C17.Refine C17.Corr C17.Scope C17.Gen_Consts C17.Crash.
-From OG Require Import C17.Inv C17.Search C17.Read C17.Step C17.SaveStep C17.ZeroSlots C17.Fault C17.Tear C17.Bytes.
+From OG Require Import C17.Inv C17.Search C17.Read C17.Step C17.SaveStep C17.ZeroSlots C17.Fault C17.Tear C17.Bytes C17.DelFault.
 Import ListNotations.
 Open Scope N_scope.
 
@@ -380,3 +380,15 @@ Theorem C17_hs_record_round : forall h rest, u64 (hs_term h) -> u64 (hs_vote h) 
 Proof. exact hs_record_round. Qed.
 Print Assumptions C17_hs_record_round.
 Print Assumptions C17_table_bytes_round.
+
+(* A DeleteBefore in which a removal fails (Model.delete_fail; /repo 9bfc733 removes oldest first, stops at the first failed
+   removal and reports it): the invariant holds, the log is the old log without some of its first entries - all below the
+   requested index -, meta is untouched, and every file the undisturbed call keeps is still there. *)
+Theorem C17_delete_fault : forall P d i0 Ac j i d1,
+  dinv P i0 d Ac -> delete_fail P j i d = Some d1 ->
+  (exists i1, dinv P i1 d1 Ac /\ i1 <= j)
+  /\ (exists n, log_of d1 = skipn n (log_of d) /\ (N.of_nat n + first_of (log_of d) <= j \/ n = 0%nat))
+  /\ d_meta d1 = d_meta d
+  /\ exists k, (i < k)%nat /\ d_files (snd (delete_before P j d)) = skipn k (d_files d) /\ d_files d1 = skipn i (d_files d).
+Proof. exact delete_fail_state. Qed.
+Print Assumptions C17_delete_fault.
